@@ -1584,6 +1584,19 @@ func runC09(c *hc.Ctx) error {
 			off = -off
 		}
 		ring[1][ax] += off
+		alias := i%3 == 2
+		if alias { // the vertex right after an in-grid vertex lies in the pixel whose address differs from that vertex's
+			// pixel by a whole multiple of 2^32 on one axis only: the same 32-bit-truncated key (a de-duplication or a cache
+			// keyed by a key made without its ok flag takes the two for one pixel)
+			// (bit 16 of the in-grid pixel address set: morton.ToZ's first spreading step folds bit 32 of an address onto it)
+			kk := []int64{1 << 32, 3 << 32, -(1 << 32)}[c.Rng.Intn(3)]
+			for j := range ring {
+				ring[j][0] += 65536 * g.Res
+				ring[j][1] += 65536 * g.Res
+			}
+			ring[1] = ring[0]
+			ring[1][ax] += kk * g.Res
+		}
 		// such magnitudes do not survive the float round trip, so this stream is oracle-only (floats in, no model case)
 		fp := geom.Polygon{make([][2]float64, len(ring))}
 		for j := range ring {
@@ -1598,6 +1611,9 @@ func runC09(c *hc.Ctx) error {
 		r := runSnapFloat(g, fp, []int{id}, cfg, watchdog)
 		c.Sum.Evaluations++
 		c.Count("far outside (multiples of 2^16..2^32 pixels), NetherlandsRDNewQuad")
+		if alias {
+			c.Count("far outside: the vertex after an in-grid vertex is that vertex moved by a whole multiple of 2^32 pixels (same truncated key)")
+		}
 		c.Nontrivial(fmt.Sprint(fp, id, cfg))
 		in := map[string]any{"grid": g.Name, "ids": []int{id}, "config": cfgJSON(cfg), "polygon": fp}
 		switch {
